@@ -1,7 +1,8 @@
 """C03  List, Array and PoolList hold exactly the reference sequence; List::sort leaves an ascending permutation."""
+import hashlib
 import itertools
+import multiprocessing
 import os
-import subprocess
 import common as C
 
 PROPERTIES = ["C03"]
@@ -447,15 +448,15 @@ def histories_for(ctx, pool_front):
     p_ops = [o for o in P_OPS if pool_front or not o.startswith(("pfront", "pback"))]
     hs = C.load_corpus(ctx.prop)
     ncorpus = len(hs)
-    dl, dp, da = (3, 4, 3) if quick else (4, 5, 4)
-    nl, na = (60000, 40000) if quick else (1500000, 1000000)
-    exl = exhaustive(L_OPS, dl) + sampled(L_OPS, dl + 1, rng, nl)
-    exp = exhaustive(p_ops, dp) + sampled(p_ops, dp + 1, rng, 20000 if quick else 400000)
+    dl, dp, da = (4, 4, 3) if quick else (5, 5, 4)
+    nl, np_, na = (60000, 30000, 100000) if quick else (0, 1000000, 2000000)
+    exl = exhaustive(L_OPS, dl) + (sampled(L_OPS, dl + 1, rng, nl) if nl else [])
+    exp = exhaustive(p_ops, dp) + sampled(p_ops, dp + 1, rng, np_)
     exa = exhaustive(A_OPS, da) + sampled(A_OPS, da + 1, rng, na)
     srt = sort_histories(7 if quick else 8, 8 if quick else 9)
-    grw = growth_histories(rng, 0.04 if quick else 0.5)
+    grw = growth_histories(rng, 0.05 if quick else 1.0)
     rnd = []
-    for _ in range(1500 if quick else 20000):
+    for _ in range(2000 if quick else 40000):
         kinds = rng.choice(["l", "l", "p", "a", "a", "lpa"])
         rnd.append(gen_random(rng, rng.choice([10, 20, 40, 80, 150, 300]), kinds, pool_front))
     # long sorts with adversarial shapes (sorted, reversed, equal, organ pipe, few distinct values)
@@ -467,11 +468,11 @@ def histories_for(ctx, pool_front):
             shapes.append([f"lappend 0 {x}" for x in vals] + ["lsort 0", "lsort 0", "lremoveFront 0", "lappend 0 -5", "lsort 0"])
     ctx.cov["rule"] = (
         f"corpus ({ncorpus}) + exhaustive op sequences with values {{0,1,2}}: List every sequence of length <= {dl} over {len(L_OPS)} ops + {nl} of length {dl + 1} "
-        f"({len(exl)} histories), PoolList length <= {dp} over {len(p_ops)} ops + a sample of length {dp + 1} ({len(exp)}), "
+        f"({len(exl)} histories), PoolList length <= {dp} over {len(p_ops)} ops + {np_} of length {dp + 1} ({len(exp)}), "
         f"Array length <= {da} over {len(A_OPS)} ops + {na} of length {da + 1} ({len(exa)}); "
         f"sort: every permutation of length <= {7 if quick else 8} and every {{0,1,2}}-valued list of length <= {8 if quick else 9} ({len(srt)}) "
         f"+ {len(shapes)} long adversarial shapes; Array growth: initial capacities 0..40 x first growth to sizes 0..44 x second growth at the "
-        f"boundaries ({len(grw)} histories, {'4% sample' if quick else '50% sample'}); {len(rnd)} random histories of 10..300 ops "
+        f"boundaries ({len(grw)} histories{', 5% sample' if quick else ''}); {len(rnd)} random histories of 10..300 ops "
         "(value domains {0..2}, -3..6, -50..50, int extremes; ~4% invalid positions).  distinct_nontrivial = distinct (op-kind set, final "
         "observation) among histories with >= 3 ops whose last shown container is non-empty")
     ctx.cov["exhaustive"] = False
@@ -479,6 +480,44 @@ def histories_for(ctx, pool_front):
                                    f"Array <= {da} over {len(A_OPS)} (one length more sampled); sort: all permutations <= {7 if quick else 8}, "
                                    f"all ternary lists <= {8 if quick else 9}: {len(srt)} inputs")
     return hs + exl + exp + exa + srt + shapes + grw + rnd
+
+
+# ---- multi-process variant of common.differential (the Python reference is the bottleneck under the GIL) -------
+_G = {}
+
+
+def _work(span):
+    a, b = span
+    part = _G["hs"][a:b]
+    ds, nlines, done, crash, ios = C.run_batch(_G["harness"], _G["driver"], part, reference, C.default_eq, 900)
+    keys = set()
+    for h, o in zip(part, ios):
+        k = nontrivial(h, o)
+        if k is not None:
+            keys.add(hashlib.blake2b((",".join(sorted(k[0])) + "|" + k[1]).encode(), digest_size=8).digest())
+    if crash and not ds:
+        ds.append(C.Diff(part[-1] if part else [], max(0, len(part[-1]) - 1) if part else 0,
+                         "impl-exit", f"exit code {crash[0]}", None, None, crash[1]))
+    return ds, nlines, done, keys
+
+
+def differential_mp(ctx, harness, driver, histories):
+    """same contract as common.differential, one worker process per chunk (fork: the histories are shared, not pickled)"""
+    if not histories:
+        return []
+    _G.update(hs=histories, harness=harness, driver=driver)
+    chunk = max(1, min(20000, (len(histories) + C.NCPU * 4 - 1) // (C.NCPU * 4)))
+    spans = [(i, min(len(histories), i + chunk)) for i in range(0, len(histories), chunk)]
+    diffs, keys = [], set()
+    with multiprocessing.get_context("fork").Pool(C.NCPU) as pool:
+        for ds, nlines, done, ks in pool.imap_unordered(_work, spans):
+            ctx.cov["evaluations"] += nlines
+            ctx.cov["traces_validated_against_impl"] += done
+            diffs += ds
+            keys |= ks
+    _G.clear()
+    ctx.cov["distinct_nontrivial"] = ctx.cov.get("distinct_nontrivial", 0) + len(keys)
+    return diffs
 
 
 # ---- PoolList::front()/back() compile probe ---------------------------------------------------------
@@ -532,7 +571,7 @@ def check(ctx):
                 ops[k] = ops.get(k, 0) + 1
         ctx.cov["op_histogram"] = ops
         ctx.cov["samples"] = [" ; ".join(h)[:600] for h in (hs[-2:] + hs[len(hs) // 2: len(hs) // 2 + 2] + hs[len(hs) // 5: len(hs) // 5 + 2])]
-        diffs = C.differential(ctx, harness, C.driver_path(DRIVER), hs, reference, C.default_eq, nontrivial=nontrivial, timeout=900)
+        diffs = differential_mp(ctx, harness, C.driver_path(DRIVER), hs)
         ctx.log(f"{len(hs)} histories, {ctx.cov['evaluations']} op lines, {len(diffs)} disagreement(s)")
         C.report_diffs(ctx, diffs, harness, C.driver_path(DRIVER), reference, C.default_eq, "seq-ops")
     finally:
